@@ -271,6 +271,13 @@ def _process_func(u, header_line, lines, mutate=None):
             raise cxx.ExtractError('must-fire rule did not fire in %s: %s' % (qual, pat))
         log.hit('U %s' % pat, n)
         b = b2
+    # R-ref: a C++ reference parameter that the C signature takes by pointer: `name.member` -> `name->member`
+    cpp_refs = set(re.findall(r'&\s*(\w+)\s*(?:,|$)', f.params or ''))
+    c_ptrs = set(re.findall(r'\*\s*(\w+)\s*(?:,|\))', sig))
+    for nm in sorted(cpp_refs & c_ptrs):
+        b, n = re.subn(r'(?<![\w.>])%s\.(?=[A-Za-z_])' % re.escape(nm), nm + '->', b)
+        if n:
+            log.hit('R-ref %s' % nm, n)
     b, nloops = lower.splice_loop_contracts(b, loops, reach_prefix=re.sub(r'\W', '_', sig.split('(')[0].split()[-1].lstrip('*')) + '.L')
     nin, nout, same = lower.verbatim_ratio(raw_body, b)
     u.funcs.append({'function': qual, 'file': relpath, 'line': f.line, 'c_name': sig.split('(')[0].split()[-1].lstrip('*'),
